@@ -9,6 +9,7 @@
 -/
 import Proofs.Lemmas.BlakeStream
 import Proofs.Lemmas.BlakeStreamEmpty
+import Proofs.Lemmas.BlakeFull
 namespace Proofs.C14_Blake
 open Model Proofs.Lemmas Proofs.Lemmas.BlakeStream
 
@@ -51,6 +52,26 @@ theorem blake_pieces_call (c : Blake.Cfg)
       = Blake.call c (pieces.flatten ++ final) salt none := by
   unfold Blake.call
   rw [blake_pieces c hc _ rfl pieces hal hby final]
+
+/-- BLAKE, against the specification: streaming any block-aligned cut of a byte string, with any final piece, returns
+    the digest the BLAKE submission defines for the whole string (C11 `blake_refines` composed with `blake_pieces_call`) -/
+theorem blake_pieces_spec {c : Blake.Cfg} {V : Spec.Blake.Variant} (h : BlakeEnd.Pair c V)
+    (salt : Nat) (pieces : List (List Nat))
+    (hal : ∀ p ∈ pieces, p.length % (c.blocksize / 8) = 0) (hby : ∀ p ∈ pieces, ∀ b ∈ p, b < 256)
+    (final : List Nat) (hbf : ∀ b ∈ final, b < 256) :
+    (Blake.update c (Blake.feed c (Blake.initstate c salt) pieces) final none true).2
+      = .ok (Spec.Blake.hash V (pieces.flatten ++ final) (8 * (pieces.flatten ++ final).length) salt) := by
+  have hc : c = Blake.blake224 ∨ c = Blake.blake256 ∨ c = Blake.blake384 ∨ c = Blake.blake512 := by
+    rcases h with ⟨rfl, _⟩ | ⟨rfl, _⟩ | ⟨rfl, _⟩ | ⟨rfl, _⟩ <;> simp
+  have hM : ∀ b ∈ pieces.flatten ++ final, b < 256 := by
+    intro b hb
+    rcases List.mem_append.mp hb with hb | hb
+    · obtain ⟨p, hp, hbp⟩ := List.mem_flatten.mp hb
+      exact hby p hp b hbp
+    · exact hbf b hb
+  rw [blake_pieces_call c hc salt pieces hal hby final,
+    BlakeEnd.blake_call_eq h _ salt none (Nat.le_refl _), BlakeFull.fold_eq_finish h _ hM none (Nat.le_refl _)]
+  rfl
 
 /-- BLAKE: the bit counter after the pieces is the number of bits fed so far (and the object still accepts data);
     every prefix of the piece list is itself a piece list, so this is the counter after each piece -/
